@@ -25,6 +25,7 @@ CONSTANTS Vars,        \* program variables
           Kinds,       \* statement kinds the menu may use
           LitIdx,      \* indices into Lits usable by `lit` statements
           Imports,     \* subset of {TRUE, FALSE}: may a `lit` be an import (frozen, defined in the subinclude)?
+          Configs,     \* the asp-model configurations carried along (ConfigsNow, or ConfigsOld in *_known cfgs)
           Shape,       \* "free", or "mutate-last": programs  literal ; anything ; ... ; mutation  (aliasing/freshness probes)
           Emit
 
@@ -77,7 +78,8 @@ Lits == << TL(<<TI(3), TI(1), TI(2)>>),                                   \* 1
            TD(<<<<"b">>>>, <<TI(5)>>),                                    \* 9
            TL(<<TI(1), TI(1)>>),                                          \* 10 duplicates
            TN,                                                            \* 11
-           TS(<<"a", ",", "e9", ",", "B", "a">>) >>                       \* 12 for the string methods
+           TS(<<"a", ",", "e9", ",", "B", "a">>),                         \* 12 for the string methods
+           TL(<<TL(<<TI(2), TI(0)>>), TL(<<TI(1), TI(0)>>), TL(<<TI(3), TI(1)>>), TL(<<TI(0), TI(1)>>)>>) >>   \* 13 pairs with equal second items
 
 RECURSIVE Alloc(_, _, _), AllocSeq(_, _, _, _, _)
 Alloc(t, h, fz) ==
@@ -153,22 +155,27 @@ Pos(n, len) == IF n >= 0 THEN (IF n < len THEN n + 1 ELSE 0) ELSE (IF len + n >=
 \* ------------------------------------------------------------------ named deviations of src/parse/asp from Python
 \* augRebinds   interpreter.go interpretIdentStatement: `x += y` is x = x + y; pyList.Operator(Add) builds a new
 \*              list, so other names of the old list (and a caller's argument) do not see the extension
-\* sortInPlace  builtins.go sorted/reversed: `l = l[:]` does not copy; the argument is reordered and the result
-\*              shares its storage
 \* constFold    interpreter.go optimiseExpressions/scope.Constant (subincluded files only): a list literal with
 \*              constant elements is evaluated once; every evaluation yields the same object
-\* strict       reflect.DeepEqual for == / != (pyBool # pyInt, pyFrozenList # pyList), builtins that type-assert
-\*              pyList reject pyFrozenList, `in` on a list compares with Go == (panics on list/dict operands),
-\*              assignment into a frozen object is refused; pyList.Freeze wraps the original (children unfrozen)
-Flaws(a, s, c, t) == [augRebinds |-> a, sortInPlace |-> s, constFold |-> c, strict |-> t]
-NoFlaws == Flaws(FALSE, FALSE, FALSE, FALSE)
-Configs == {"build", "defs", "aug", "sort", "fold", "strict"}
-FlawsOf(c) == CASE c = "build"  -> Flaws(TRUE, TRUE, FALSE, TRUE)
-                [] c = "defs"   -> Flaws(TRUE, TRUE, TRUE, TRUE)
-                [] c = "aug"    -> Flaws(TRUE, FALSE, FALSE, FALSE)
-                [] c = "sort"   -> Flaws(FALSE, TRUE, FALSE, FALSE)
-                [] c = "fold"   -> Flaws(FALSE, FALSE, TRUE, FALSE)
-                [] c = "strict" -> Flaws(FALSE, FALSE, FALSE, TRUE)
+\* strict       reflect.DeepEqual for == / != (pyBool # pyInt, pyFrozenList # pyList), `in` on a list compares with
+\*              Go == (panics on two list/dict operands), assignment into a frozen object is refused
+\* Two further deviations were repaired in /repo (commits 1737c5d, c4c20f2 and the Freeze repair) and are kept
+\* only for the *_known configurations, which regenerate the old predictions when a regression is diagnosed:
+\* sortInPlace   sorted/reversed used to reorder their argument (now slices.Clone)
+\* frozenOld     builtins that type-asserted pyList used to reject pyFrozenList (now asList), and pyList.Freeze
+\*               used to wrap the original list, leaving its children unfrozen (now it wraps the frozen copy)
+Flaws(a, s, c, t, o) == [augRebinds |-> a, sortInPlace |-> s, constFold |-> c, strict |-> t, frozenOld |-> o]
+NoFlaws == Flaws(FALSE, FALSE, FALSE, FALSE, FALSE)
+ConfigsNow == {"build", "defs", "aug", "fold", "strict"}                   \* the code as it is
+ConfigsOld == ConfigsNow \cup {"sort", "oldbuild", "olddefs"}              \* ... plus the code before the repairs
+FlawsOf(c) == CASE c = "build"    -> Flaws(TRUE,  FALSE, FALSE, TRUE,  FALSE)
+                [] c = "defs"     -> Flaws(TRUE,  FALSE, TRUE,  TRUE,  FALSE)
+                [] c = "aug"      -> Flaws(TRUE,  FALSE, FALSE, FALSE, FALSE)
+                [] c = "fold"     -> Flaws(FALSE, FALSE, TRUE,  FALSE, FALSE)
+                [] c = "strict"   -> Flaws(FALSE, FALSE, FALSE, TRUE,  FALSE)
+                [] c = "sort"     -> Flaws(FALSE, TRUE,  FALSE, FALSE, FALSE)
+                [] c = "oldbuild" -> Flaws(TRUE,  TRUE,  FALSE, TRUE,  TRUE)
+                [] c = "olddefs"  -> Flaws(TRUE,  TRUE,  TRUE,  TRUE,  TRUE)
 
 \* heap addresses allocated before the program starts (function prelude)
 HDefault == 1      \* def h(q=[7]): return q            the default is evaluated once, at definition
@@ -179,7 +186,7 @@ InitHeap == << Obj("list", <<>>, <<IntV(7)>>, FALSE), Obj("list", <<>>, <<IntV(1
 RECURSIVE AllocA(_, _, _, _), AllocASeq(_, _, _, _, _, _)
 AllocA(t, h, fz, F) ==
   IF t.k \notin {"list", "dict"} THEN Alloc(t, h, fz)
-  ELSE LET cfz == IF F.strict /\ t.k = "list" THEN FALSE ELSE fz
+  ELSE LET cfz == IF F.frozenOld /\ t.k = "list" THEN FALSE ELSE fz
            r == AllocASeq(t.e, 1, h, <<>>, cfz, F) IN NewObj(Obj(t.k, t.keys, r.vs, fz), r.h)
 AllocASeq(ts, k, h, acc, fz, F) ==
   IF k > Len(ts) THEN [vs |-> acc, h |-> h]
@@ -195,7 +202,8 @@ ResolveF(v, h) == IF ~IsRef(v) THEN T(v.t, v.i, v.s, <<>>, <<>>)
                   ELSE T(h[v.i].k, IF h[v.i].fz THEN 1 ELSE 0, <<>>, h[v.i].keys,
                          [j \in 1..Len(h[v.i].e) |-> ResolveF(h[v.i].e[j], h)])
 EqF(v, w, h, F) == IF F.strict THEN ResolveF(v, h) = ResolveF(w, h) ELSE PyEq(v, w, h)
-Frozen(v, h, F) == F.strict /\ IsRef(v) /\ h[v.i].fz
+Frozen(v, h, F) == F.strict /\ IsRef(v) /\ h[v.i].fz          \* assignment into an imported object is refused
+Rejected(v, h, F) == F.frozenOld /\ IsRef(v) /\ h[v.i].fz      \* (before the repair) a list builtin refuses an imported list
 
 \* ------------------------------------------------------------------ one statement
 St(k, a, x, y, n, f, s, fz) == [k |-> k, a |-> a, x |-> x, y |-> y, n |-> n, f |-> f, s |-> s, fz |-> fz]
@@ -315,17 +323,40 @@ ExecGetKey(st, S, F) ==
            ps == KeyPos(o.keys, st.s) IN
        IF ps = 0 THEN Fail(S) ELSE Bind(S, st.a, o.e[ps], S.h)
 
+\* sorted(x) sorted(x, reverse=True) sorted(x, key=len[, reverse=True]) sorted(x, key=lambda e: e[1][, reverse=True])
+\* CPython's sort is STABLE, also with reverse=True: elements whose keys compare equal keep their original order.
+SortFns == {"sorted", "sortedrev", "sortedlen", "sortedlenrev", "sorteditem", "sorteditemrev"}
+KeyKind(f) == IF f \in {"sortedlen", "sortedlenrev"} THEN "len" ELSE IF f \in {"sorteditem", "sorteditemrev"} THEN "item" ELSE "self"
+Desc(f)    == f \in {"sortedrev", "sortedlenrev", "sorteditemrev"}
+KeyOK(es, kind, h) == CASE kind = "self" -> Sortable(es)
+                        [] kind = "len"  -> \A j \in 1..Len(es) : es[j].t = "str" \/ IsRef(es[j])
+                        [] kind = "item" -> \A j \in 1..Len(es) : IsList(es[j], h) /\ Len(Elems(es[j], h)) >= 2 /\ Elems(es[j], h)[2].t = "int"
+KeyVal(v, kind, h) == CASE kind = "self" -> v
+                        [] kind = "len"  -> IntV(IF v.t = "str" THEN Len(v.s) ELSE Len(Elems(v, h)))
+                        [] kind = "item" -> Elems(v, h)[2]
+\* x goes in front of y: strictly smaller key (strictly greater when descending); never in front of an equal key
+Before(x, y, kind, desc, h) == IF desc THEN Lt(KeyVal(y, kind, h), KeyVal(x, kind, h)) ELSE Lt(KeyVal(x, kind, h), KeyVal(y, kind, h))
+RECURSIVE InsertBy(_, _, _, _, _), SortBy(_, _, _, _)
+InsertBy(x, s, kind, desc, h) == IF s = <<>> THEN <<x>>
+                                 ELSE IF Before(x, s[1], kind, desc, h) THEN <<x>> \o s
+                                 ELSE <<s[1]>> \o InsertBy(x, Tail(s), kind, desc, h)
+SortBy(s, kind, desc, h) == IF s = <<>> THEN <<>>
+                            ELSE InsertBy(s[Len(s)], SortBy(SubSeq(s, 1, Len(s) - 1), kind, desc, h), kind, desc, h)
+\* property-level statement of stability: equal keys keep their relative order, in both directions
+StableOn(es, kind, desc, h) == LET r == SortBy(es, kind, desc, h) IN
+   \A i \in 1..Len(es), j \in 1..Len(es) :
+      (i < j /\ KeyVal(es[i], kind, h) = KeyVal(es[j], kind, h) /\ es[i] # es[j])
+         => \E a \in 1..Len(r), b \in 1..Len(r) : a < b /\ r[a] = es[i] /\ r[b] = es[j]
+
 \* builtins of one list/dict/str argument
 ExecUn(st, S, F) ==
   IF ~Def(S, st.x) THEN Fail(S)
   ELSE LET vx == S.env[st.x]
            isl == IsList(vx, S.h)
            es == IF IsRef(vx) THEN Elems(vx, S.h) ELSE <<>> IN
-       CASE st.f \in {"sorted", "sortedrev", "reversed"} ->
-              IF ~isl \/ (st.f # "reversed" /\ ~Sortable(es)) \/ Frozen(vx, S.h, F) THEN Fail(S)
-              ELSE LET res == CASE st.f = "sorted" -> PySort(es)
-                                [] st.f = "sortedrev" -> Rev(PySort(es))
-                                [] st.f = "reversed" -> Rev(es) IN
+       CASE st.f \in SortFns \cup {"reversed"} ->
+              IF ~isl \/ Rejected(vx, S.h, F) \/ (st.f \in SortFns /\ ~KeyOK(es, KeyKind(st.f), S.h)) THEN Fail(S)
+              ELSE LET res == IF st.f = "reversed" THEN Rev(es) ELSE SortBy(es, KeyKind(st.f), Desc(st.f), S.h) IN
                    IF F.sortInPlace THEN Bind(S, st.a, vx, [S.h EXCEPT ![vx.i].e = res])
                    ELSE BindNew(S, st.a, NewList(res, S.h))
          [] st.f = "len" -> IF IsRef(vx) THEN Bind(S, st.a, IntV(Len(es)), S.h)
@@ -397,7 +428,7 @@ ExecBinLit(st, S, F) ==
 
 \* map(lambda e: [e], x)   filter(lambda e: e, x)   reduce(lambda u, w: u + w, x)
 ExecHof(st, S, F) ==
-  IF ~Def(S, st.x) \/ ~IsList(S.env[st.x], S.h) \/ Frozen(S.env[st.x], S.h, F) THEN Fail(S)
+  IF ~Def(S, st.x) \/ ~IsList(S.env[st.x], S.h) \/ Rejected(S.env[st.x], S.h, F) THEN Fail(S)
   ELSE LET es == Elems(S.env[st.x], S.h) IN
        CASE st.f = "map" -> LET r == EachNew(es, 1, S.h, <<>>, "wrap") IN BindNew(S, st.a, NewList(r.vs, r.h))
          [] st.f = "filter" -> BindNew(S, st.a, NewList(Filter(es, S.h), S.h))
@@ -481,7 +512,7 @@ Exec(st, S, F) ==
 KeyMenu   == {<<"a">>, <<"c">>}
 AugLits   == {1, 4, 7, 8}
 ForLits   == {4, 5, 7}
-UnFns     == {"sorted", "sortedrev", "reversed", "len", "min", "max", "any", "all", "enumerate", "rangelen",
+UnFns     == SortFns \cup {"reversed", "len", "min", "max", "any", "all", "enumerate", "rangelen",
               "mul2", "not", "keys", "values", "items", "copy"}
 BinFns    == {"add", "eq", "ne", "lt", "in", "zip", "union"}
 BinLitFns == {"eq", "ne", "add", "radd", "in", "zip", "union"}
@@ -543,15 +574,17 @@ FrozenIrrelevant == Snap(sp) = Snap(Replay(prog, 1, InitState, NoFlaws, TRUE))
 
 \* statements through which each recorded deviation can act
 ActsAug(st)    == st.k \in {"aug", "forlit"} \/ (st.k = "call" /\ st.f = "k")
-ActsSort(st)   == st.k = "un" /\ st.f \in {"sorted", "sortedrev", "reversed"}
+ActsSort(st)   == st.k = "un" /\ st.f \in SortFns \cup {"reversed"}
 ActsFold(st)   == st.k = "forlit" \/ (st.k = "call" /\ st.f = "f")
 ActsStrict(st) == st.fz \/ (st.k \in {"bin", "binlit"} /\ st.f \in {"eq", "ne", "in"})
 Acts(c, st) == CASE c = "aug"    -> ActsAug(st)
                  [] c = "sort"   -> ActsSort(st)
                  [] c = "fold"   -> ActsFold(st)
                  [] c = "strict" -> ActsStrict(st)
-                 [] c = "build"  -> ActsAug(st) \/ ActsSort(st) \/ ActsStrict(st)
-                 [] c = "defs"   -> ActsAug(st) \/ ActsSort(st) \/ ActsStrict(st) \/ ActsFold(st)
+                 [] c = "build"  -> ActsAug(st) \/ ActsStrict(st)
+                 [] c = "defs"   -> ActsAug(st) \/ ActsStrict(st) \/ ActsFold(st)
+                 [] c = "oldbuild" -> ActsAug(st) \/ ActsSort(st) \/ ActsStrict(st)
+                 [] c = "olddefs"  -> ActsAug(st) \/ ActsSort(st) \/ ActsStrict(st) \/ ActsFold(st)
 \* every algorithm-level model deviates from Python only through statements its deviations act on
 AlgoRefinesPython == \A c \in Configs : (\A j \in 1..Len(prog) : ~Acts(c, prog[j])) => Snap(sa[c]) = Snap(sp)
 \* ... and the BUILD-file model differs from the build_defs model only through constant folding
@@ -570,6 +603,10 @@ WellFormedHeap == /\ \A v \in Vars : IsRef(sp.env[v]) => sp.env[v].i \in 1..Len(
 
 \* the menus the driver needs to render statements as source text
 ASSUME Emit => PrintT(<<"NOTE", ToJson([lits |-> Lits, slices |-> SliceForms, noneidx |-> NoneIdx])>>)
+\* the spec's sort is stable on every list value reachable from a variable, for every applicable key and direction
+SortIsStable == \A v \in Vars : IsList(sp.env[v], sp.h) =>
+                  \A kind \in {"self", "len", "item"}, desc \in BOOLEAN :
+                     KeyOK(Elems(sp.env[v], sp.h), kind, sp.h) => StableOn(Elems(sp.env[v], sp.h), kind, desc, sp.h)
 EmitCase == Emit => PrintT(<<"CASE", ToJson([prog |-> prog, expect |-> Snap(sp), algo |-> [c \in Configs |-> Snap(sa[c])]])>>)
 
 \* ------------------------------------------------------------------ constant sets named by the cfg files
